@@ -124,7 +124,13 @@ def job(cfg):
         flow.eval()
         ctx = stubs.named_tensor("ctx", (k, cw)) if k is not None else None
         log_z = lift(base._log_z).a[()].t
-        samples, lp = flow.sample_and_log_prob(n, context=ctx)
+        try:
+            samples, lp = flow.sample_and_log_prob(n, context=ctx)
+        except Exception as e:  # noqa  (a well-formed call must not raise; the replay repeats it on real tensors)
+            note("sample_and_log_prob-raises", "%s: %s" % (type(e).__name__, e))
+            jr["paths"] = checks
+            solver.close()
+            return jr
         rows = k if k is not None else 1
         want = ((k, n, D) if k is not None else (n, D))
         note("shapes", None if (tuple(samples.shape) == want and tuple(lp.shape) == want[:-1]) else "shapes %s / %s" % (tuple(samples.shape), tuple(lp.shape)))
